@@ -516,10 +516,30 @@ DemandType TransportationSuccessiveShortestPath::sendSource(
   assert(quantity > 0LL);
   DemandType maxSent = quantity;
   int snk1 = sink;
+  // Source that arrives at the current sink, or -1 when it is not known for
+  // sure. When the source moved out of a sink is the one that arrives, its
+  // allocation there does not change and does not limit the quantity;
+  // otherwise a small allocation of this source would be the bottleneck again
+  // and again, one unit at a time.
+  int arriving = src;
   while (sinkParent_[snk1] != -1) {
     int snk2 = sinkParent_[snk1];
-    maxSent = std::min(maxSent, sentQuantity(snk1, snk2));
+    int moved = sentSource(snk1, snk2);
+    if (arriving >= 0 && arriving != moved &&
+        pb_.allocation(snk1, arriving) == 0LL) {
+      // The arriving source enters the queue and may be the one moved
+      CostType cost = pb_.movingCost(arriving, snk1, snk2);
+      if (cost < movingCost(snk1, snk2)) {
+        moved = arriving;
+      } else if (cost == movingCost(snk1, snk2)) {
+        moved = -1;
+      }
+    }
+    if (moved < 0 || moved != arriving) {
+      maxSent = std::min(maxSent, sentQuantity(snk1, snk2));
+    }
     assert(maxSent > 0LL);
+    arriving = moved;
     snk1 = snk2;
   }
   maxSent = std::min(maxSent, remainingCapa_[snk1]);
